@@ -328,9 +328,15 @@ CLAIMED["C13"] = dict(
          "are handled one at a time, every submitted operation is in exactly one batch and gets its status exactly once (any number of threads, "
          "all schedules). Tie: white-box differential on the real handle_operations / heapify / reheap (random heaps x batches, throwing copy at "
          "each position), E-SHIM access-level validation of the aggregator protocol, independent monitors incl. a priority-queue "
-         "linearizability checker on small histories.",
-    note="Trusted: Lean kernel, standard axioms, harness/c13, E-SHIM, sampled correspondence.",
-    technique="Lean 4 proof (heap lemmas, batch linearizability by permutation, N-thread aggregator invariant) + white-box differential + E-SHIM",
+         "linearizability checker on small histories. Session 3: the composition is a theorem - every concurrent history of push / emplace / "
+         "try_pop on the access-level aggregator model (any threads, programs, schedules, any key preorder with ties) is linearizable w.r.t. "
+         "the multiset priority-queue specification, with all linearization points of a batch at the exchange that grabs it and the "
+         "executable order batchLin inside a batch; pops are truthful and maximal, elements conserved, failed pushes isolated at history "
+         "level; the guards and the statement skeleton of handle_operations are regenerated from the source; real histories are validated "
+         "against the model-produced linearization and by Wing-Gong.",
+    note="Trusted: Lean kernel, standard axioms, harness/c13, checks/c13gen.py translator, E-SHIM, sampled correspondence. Linearizable is the "
+         "linearization-point form; the handler's serve order is not a linearization (shown); pop-side assignment throw excluded (known finding).",
+    technique="Lean 4 proof (heap lemmas, executable batch linearization, refinement invariant of the handler loop + history invariant over the N-thread aggregator system) + regenerated guards/skeleton + white-box differential + E-SHIM replay + history validation",
     design="§3 C13")
 
 NOT_YET = "check not built yet in this round (planned: DESIGN.md §3); no claim is made"
